@@ -57,6 +57,17 @@ def worldinfo(b, items):
     return vf.run_filter([b["exe_q"], "worldinfo"], [w + "\x1e" + enc(t) for (t, w) in items]) if items else []
 
 
+def world_ifaces(info):
+    out = set()
+    for t in info.split(" ")[3:]:
+        f = t.split(":")
+        if f[1] == "iface":
+            out.add(f[5])
+        elif f[1] == "inline":
+            out.add(f[2])
+    return out
+
+
 def export_only_ifaces(info):
     imp, exp = set(), set()
     for t in info.split(" ")[3:]:
@@ -94,9 +105,13 @@ def examine(b, items):
                       "doc_authored_targets": len(authored)}
         lines.append(c29_html.encode(toks, authored)); where.append(len(res))
         if md is not None:
-            blocks = c29_html.doc_blocks(t)
-            mdl = [l.strip() for l in md.split("\n")]
             xo = export_only_ifaces(info)
+            present = world_ifaces(info)
+            allb = c29_html.doc_blocks(t, with_owner=True)
+            # docs of interfaces the world neither imports nor exports are not expected in the world's documentation
+            blocks = [(k, n, bk) for (k, n, bk, owner) in allb if owner is None or owner in present]
+            r["stats"]["doc_comments_of_unreferenced_interfaces"] = len(allb) - len(blocks)
+            mdl = [l.strip() for l in md.split("\n")]
             r["stats"]["doc_comments"] = len(blocks)
             r["stats"]["doc_lines"] = sum(len(bk) for _, _, bk in blocks)
             r["stats"]["doc_lines_with_brace_or_slashes"] = sum(1 for _, _, bk in blocks for l in bk if "{" in l or "}" in l or "//" in l)
@@ -148,7 +163,7 @@ def shrink_world(b, item, key, which):
             return False
         r = examine(b, [(txt, w, info, o)])[0]
         return any(k == key for k, _ in r[which])
-    lines = vf.shrink_list(t.rstrip("\n").split("\n"), fails, max_steps=300)
+    lines = vf.shrink_list(t.rstrip("\n").split("\n"), fails, max_steps=150)
     txt = "\n".join(lines) + "\n"
     return (txt, w, worldinfo(b, [(txt, w)])[0], o)
 
@@ -264,6 +279,7 @@ def run(ctx):
             "a_href": 0, "intra_links": 0, "anchors": 0, "duplicate_anchor_ids": 0, "doc_authored_targets": 0, "doc_comments": 0,
             "doc_lines": 0, "doc_lines_with_brace_or_slashes": 0, "doc_lines_starting_with_closing_brace": 0, "generator_failures": {}}
     reported = set()
+    n_new = 0
     digests, nontriv = set(), set()
     for it, r in zip(items, res):
         if r["status"] != "ok":
@@ -279,11 +295,13 @@ def run(ctx):
             nontriv.add(dg)
         for which in ("link_errs", "doc_errs"):
             for key, text in r[which]:
-                if key in reported or len(reported) >= 8:
+                known = ctx.known.is_known(ctx.prop, key)
+                if key in reported or (not known and n_new >= 3):
                     continue
                 reported.add(key)
                 small = it
-                if not ctx.known.is_known(ctx.prop, key):
+                if not known:
+                    n_new += 1
                     small = shrink_world(b, it, key, which)
                     r2 = examine(b, [small])[0]
                     text = next((t for k, t in r2[which] if k == key), text)
